@@ -11,7 +11,7 @@ import numpy as np
 
 NAMES = [
     "par-noirf", "seq-irf", "disp-irf", "shift-irf", "linked-two", "unlinked-two-pen", "artifact-osc",
-    "full-model", "expr-nonneg", "backsweep", "two-groups-nnls", "expr-forward",
+    "full-model", "expr-nonneg", "backsweep", "two-groups-nnls", "expr-forward", "multi-irf-indep", "expr-forward-rate",
 ]
 #: schemes with finite parameter bounds (scipy's 'lm' does not support bounds)
 BOUNDED = {"expr-nonneg"}
@@ -157,6 +157,36 @@ shift:
   - ['3', -0.02]
 """
         data = {"d1": _decay_data(t, g3, [1.5, 0.2], 3)}
+    elif name == "multi-irf-indep":
+        # index-INDEPENDENT multi-Gaussian IRF with two distinct centres: the single-index kernel is called directly from
+        # Python and both Gaussians accumulate into the same matrix entries (seeded change C10-3: that kernel compiled
+        # with parallel=True over the Gaussians)
+        model = """
+megacomplex:
+  m1: {type: decay-parallel, compartments: [s1, s2, s3], rates: [rates.1, rates.2, rates.3]}
+irf:
+  irf1:
+    type: multi-gaussian
+    center: [irf.center1, irf.center2]
+    width: [irf.width1, irf.width2]
+    scale: [irf.scale1, irf.scale2]
+dataset:
+  d1: {megacomplex: [m1], irf: irf1}
+"""
+        pars = """
+rates:
+  - ['1', 1.7]
+  - ['2', 0.21]
+  - ['3', 0.05]
+irf:
+  - ['center1', 0.05]
+  - ['center2', 0.45]
+  - ['width1', 0.1]
+  - ['width2', 0.25]
+  - ['scale1', 1, {vary: false}]
+  - ['scale2', 0.4]
+"""
+        data = {"d1": _decay_data(t, g3, [1.5, 0.2, 0.04], 5)}
     elif name in ("linked-two", "unlinked-two-pen"):
         link = "true" if name == "linked-two" else "false"
         model = f"""
@@ -352,6 +382,28 @@ aux:
   - ['c', 3.0]
 """
         data = {"d1": _decay_data(t, g3, [1.5, 0.3], 13)}
+    elif name == "expr-forward-rate":
+        # a RATE is an expression of an expression parameter declared after it, which depends on a free rate: a stale
+        # value changes the model matrix and the penalty (a stale dataset scale, as in "expr-forward", does not)
+        model = """
+megacomplex:
+  m1: {type: decay-parallel, compartments: [s1, s2], rates: [rates.1, rates.2]}
+irf:
+  irf1: {type: gaussian, center: irf.center, width: irf.width}
+dataset:
+  d1: {megacomplex: [m1], irf: irf1}
+"""
+        pars = """
+rates:
+  - ['1', 1.4]
+  - ['2', 0.3, {expr: '$aux.b * 0.5'}]
+irf:
+  - ['center', 0.05]
+  - ['width', 0.12, {vary: false}]
+aux:
+  - ['b', 0.6, {expr: '$rates.1 * 0.4 + 0.04'}]
+"""
+        data = {"d1": _decay_data(t, g3, [1.5, 0.3], 17)}
     else:
         raise KeyError(name)
     m = load_model(model, format_name="yml_str")
